@@ -501,9 +501,11 @@ func runCheck(prop, tier, repo string, verbose bool, only string, timeout int) i
 		},
 		"assumptions": assumptions,
 	}
-	os.MkdirAll(filepath.Join(verifDir, "evidence"), 0o755)
-	b, _ := json.MarshalIndent(ev, "", " ")
-	os.WriteFile(filepath.Join(verifDir, "evidence", prop+".json"), b, 0o644)
+	if os.Getenv("VERIF_NO_EVIDENCE") == "" {
+		os.MkdirAll(filepath.Join(verifDir, "evidence"), 0o755)
+		b, _ := json.MarshalIndent(ev, "", " ")
+		os.WriteFile(filepath.Join(verifDir, "evidence", prop+".json"), b, 0o644)
+	}
 	return exit
 }
 
